@@ -668,7 +668,13 @@ class Runner:
         if ep.cur_tid is not None and (ep.cur_tid[0], ep.cur_tid[2]) != t:
             self.w.log.add("link", ep.side, what="foreign_tid_dropped", d=d)
             return
+        was_idle = ep.h.state == CfdpState.IDLE
+        n_exc = len(self.proto_exc)
         self.call_sm(ep, pdu, d)
+        if was_idle and ep.h.state == CfdpState.IDLE and len(self.proto_exc) == n_exc:
+            # an idle handler accepted the PDU and is idle again: the transaction was started and closed within this call (metadata-only
+            # transfer, abandonment).  The entity knows the transaction id from the PDU it delivered.
+            ep.closed.add(t)
 
     def call_sm(self, ep: Endpoint, pdu=None, d=None) -> None:
         desc = None if d is None else {k: v for k, v in d.items() if k not in ("data", "h")}
